@@ -149,6 +149,7 @@ type c20Work struct {
 	Watcher   bool
 	Stale     bool
 	SameDir   bool // destination directory == the control file's own directory
+	Hardlinks bool // the destination already holds hard links to the source files (cp -al snapshot)
 }
 
 type c20Result struct {
@@ -164,11 +165,13 @@ var c20FaultKinds = []simos.Fault{
 	{Kind: "err", Errno: syscall.EIO},
 	{Kind: "err", Errno: syscall.ENOSPC},
 	{Kind: "err", Errno: syscall.EACCES},
+	{Kind: "err", Errno: syscall.ENOENT},
+	{Kind: "err", Errno: syscall.EXDEV},
 	{Kind: "short", Errno: syscall.ENOSPC},
 	{Kind: "crash"},
 	{Kind: "crash-after"},
 }
-var c20FaultNames = []string{"EIO", "ENOSPC", "EACCES", "short", "crash", "crash-after"}
+var c20FaultNames = []string{"EIO", "ENOSPC", "EACCES", "ENOENT", "EXDEV", "short", "crash", "crash-after"}
 
 func under(p, dir string) bool { return p == dir || strings.HasPrefix(p, dir+"/") }
 
@@ -204,6 +207,13 @@ func c20Exec(r *rt.Run, w *c20Work, planIdx int, fault simos.Fault, tag string) 
 		}
 	case "file":
 		fs.PutQuiet(dst, []byte("i am a regular file"))
+	}
+	if w.Hardlinks {
+		// the same inodes under other names: emptying "the destination file"
+		// would empty the source
+		for _, f := range u.Files {
+			fs.LinkQuiet(f.SrcPath, path.Join(dst, f.Base))
+		}
 	}
 	fs.PutQuiet("/queue/bystander.txt", []byte("bystander"))
 	if w.U2 != nil {
@@ -540,7 +550,11 @@ func runC20(r *rt.Run, tier string) {
 	w.TwoMounts = t.Bool(1, 8, "c20.mounts")
 	w.Watcher = t.Bool(1, 2, "c20.watcher")
 	w.Stale = t.Bool(1, 6, "c20.stale")
-	if w.DstState == "dir" && w.Op != "Remove" && !anyOdd(w.U) && t.Bool(1, 10, "c20.samedir") {
+	if w.DstState == "dir" && w.Op == "Copy" && !anyOdd(w.U) && !w.Stale && !w.TwoMounts && t.Bool(1, 12, "c20.hardlinks") {
+		w.Hardlinks = true
+		r.Probe("destination-holds-hard-links-to-the-source-files")
+	}
+	if !w.Hardlinks && w.DstState == "dir" && w.Op != "Remove" && !anyOdd(w.U) && t.Bool(1, 10, "c20.samedir") {
 		w.SameDir = true
 		w.TwoMounts, w.Stale = false, false
 		r.Probe("destination-is-the-source-directory")
@@ -665,5 +679,5 @@ func init() {
 		},
 		Assumptions: []string{"crash = death of the calling process (completed calls persist); power-loss semantics are not modelled because the library never calls fsync and the property does not promise power-fail durability", "after a crash only the every-instant invariants are demanded; the atomic-failure clause is demanded when an error is returned", "a listed name must resolve to a file directly in the control file's own directory: a subdirectory of it is outside (strict reading of the statement)"},
 	})
-	propProbes["C20"] = []string{"destination-is-the-source-directory", "traversal-name", "absolute-name", "name-with-subdirectory", "control-file-lists-itself", "file-needs-several-read-write-calls", "uploader-crashed", "EXDEV-on-rename", "fault-on-control-file-create", "fault-on-control-file-write", "fault-on-control-file-close", "fault-on-control-file-rename", "fault-on-first-file", "fault-on-last-file", "crash-between-last-file-and-control-file", "watcher-ran-between-create-and-first-write-of-control-file"}
+	propProbes["C20"] = []string{"destination-holds-hard-links-to-the-source-files", "destination-is-the-source-directory", "traversal-name", "absolute-name", "name-with-subdirectory", "control-file-lists-itself", "file-needs-several-read-write-calls", "uploader-crashed", "EXDEV-on-rename", "fault-on-control-file-create", "fault-on-control-file-write", "fault-on-control-file-close", "fault-on-control-file-rename", "fault-on-first-file", "fault-on-last-file", "crash-between-last-file-and-control-file", "watcher-ran-between-create-and-first-write-of-control-file"}
 }
